@@ -21,6 +21,7 @@ From TLV Require Import Base.Ops Model.Prox Proofs.ProxProofsHard Proofs.ProxPro
 From TLV Require Import Proofs.ProxProofsUni Proofs.ConstraintsProofsUni Proofs.ConstraintsProofsFeasible.
 From TLV Require Import Model.ConstraintsOps Proofs.ConstraintsProofsStatic Proofs.ConstraintsProofsInit.
 From TLV Require Import Model.ConstraintsStop Proofs.ConstraintsProofsStop Proofs.ConstraintsProofsClass Proofs.ConstraintsProofsRefute.
+From TLV Require Import Model.ConstraintsNc Proofs.ConstraintsProofsNc.
 Import ListNotations.
 Close Scope R_scope. Close Scope Q_scope.
 
@@ -368,6 +369,13 @@ Theorem C11_nonpositive_simplex_parameter_refuted :
 Proof. exact nonpositive_simplex_refuted. Qed.
 Print Assumptions C11_nonpositive_simplex_parameter_refuted.
 
+(* a negative simplex / l1-ball parameter asks for an EMPTY constraint set: whatever is returned for such a request is infeasible
+   (the code serves it silently in every form - a negative number is truthy; candidate repair: ValueError) *)
+Theorem C11_negative_parameter_empty_set : forall p : R, (p < 0)%R ->
+  (forall z, ~ (l1n Rops z <= p)%R) /\ (forall z, ~ (Forall (fun a : R => (0 <= a)%R) z /\ lsum Rops z = p)).
+Proof. exact negative_parameter_empty_set. Qed.
+Print Assumptions C11_negative_parameter_empty_set.
+
 (* ---------------------------------------------------------------------------------------------------------------------------------
    The outer stopping rule AS WRITTEN (Model/ConstraintsStop.v: nothing is decided at iteration 0 or with a falsy tol_outer; the constraint
    error is looked at first; cvg_criterion 'abs_rec_error' / 'rec_error' / anything else -> TypeError) instead of an arbitrary boolean:
@@ -442,6 +450,25 @@ Theorem C11_fit_transform_rejects_double : forall (P : Type) (truthy : P -> bool
   fit_transform truthy dM (op_c12 toR toN other) msub madd self E n zero = Err.
 Proof. exact @fit_transform_rejects. Qed.
 Print Assumptions C11_fit_transform_rejects_double.
+
+(* the `n_const is None` branches of proximal_operator / admm (never taken by constrained_parafac, which passes n_const = ndim(tensor):
+   corr:C11-static): the keywords are not looked at - the tensor comes back unchanged, admm returns the unconstrained least-squares
+   solution, and even two constraints on one mode are not rejected; with n_const = Some n the definitions are the model's *)
+Theorem C11_n_const_none_ignores_request : forall (P M : Type) (truthy : P -> bool) (op : kind -> P -> M -> M) (msub madd : M -> M -> M)
+  (sp : list (kind * @zspec P)) (order n_iter : nat) (split : M -> M -> M) (conv : nat -> M -> M -> M -> bool) (ls x dual : M),
+  proximal_operator_nc truthy op None sp order x = Ok x /\
+  (0 < n_iter -> admm_nc truthy op msub madd None sp order n_iter split conv ls x dual = Ok (ls, split x dual, dual)) /\
+  admm_nc truthy op msub madd None sp order 0 split conv ls x dual = Err.
+Proof. exact @n_const_none_ignores_request. Qed.
+Print Assumptions C11_n_const_none_ignores_request.
+
+Theorem C11_n_const_some_is_the_model : forall (P M : Type) (truthy : P -> bool) (op : kind -> P -> M -> M) (msub madd : M -> M -> M)
+  (n : nat) (sp : list (kind * @zspec P)) (order n_iter : nat) (split : M -> M -> M) (conv : nat -> M -> M -> M -> bool) (ls x dual : M),
+  proximal_operator_nc truthy op (Some n) sp order x = proximal_operator op (zvalidate truthy n sp) order x /\
+  admm_nc truthy op msub madd (Some n) sp order n_iter split conv ls x dual =
+  admm msub madd n_iter split conv (proximal_operator op (zvalidate truthy n sp) order) x dual.
+Proof. exact @n_const_some_is_the_model. Qed.
+Print Assumptions C11_n_const_some_is_the_model.
 
 (* requests with two constraints on one mode are rejected by the decomposition, whatever the rest *)
 Theorem C11_decomposition_rejects_double : forall (P : Type) (truthy : P -> bool) (M : Type) (dM : M)
